@@ -5,3 +5,10 @@ check(
     "Reals not floats (association order of float products outside the claim); PolynomialFeatures.powers_ is the trusted oracle; dense input only.",
     "DESIGN.md 3.C11",
 )
+check(
+    "C20",
+    "symbolic-length symbolic execution (SXL: write-log arrays, LIA+UF in z3) of the real build_ts_X_y/_base_fit_predict for EVERY series length; bounded SX (z3 LRA) for ts_mape",
+    "The real build_ts_X_y and its caller run once per (past<=4/6, delay2<=5/7, ncol<=2, weights, same_rows) with the series length a symbolic unbounded integer; z3 shows for an arbitrary row that each lag, exogenous, target, weight and padding cell is the one the property names, and that no NumPy shape error can occur. ts_mape is executed on symbolic series of length <=5/6 over every NaN pattern: non-negative, =1 for the naive forecast, no exception.",
+    "delay1=1, use_all_past=False (as the property says). Array model of vf/sxl.py (slice clamping, assignment shape rule) trusted, cross-checked concretely against the real code per configuration. Reals not floats in ts_mape.",
+    "DESIGN.md 3.C20",
+)
